@@ -65,17 +65,19 @@ Required(sx, code, full, f) ==
         tx1 == [sx.tx EXCEPT !.ins[sx.idx + 1].ps = Unparse(IF UsesForkDigest(full, f) THEN code ELSE DropSeparators(code))]
     IN IF UsesForkDigest(full, f) THEN PreimageForkID(tx1, sx.idx, ht4) ELSE PreimageLegacy(tx1, sx.idx, ht4)
 
-\* concrete preimage bytes against the symbolic required preimage; the 32-byte hashes embedded in
-\* it become oracle obligations (python hashlib); ref 0 = not tied to one trace line
-SigOblige(in, out) == PrintT(ToJson([k |-> "hash", kind |-> "sha256d", in |-> in, out |-> out, ref |-> 0]))
-MatchPre(segs, actual) ==
+\* concrete preimage bytes against the symbolic required preimage.  The 32-byte hashes embedded in a
+\* preimage are resolved through the signer's table hs of (what was hashed -> 32 bytes), every entry of
+\* which is an oracle obligation discharged by python hashlib when the trace begins: a required hash
+\* input that the signer never hashed cannot equal any embedded hash (collision freedom).
+HashOut(hs, of) == LET hits == {i \in 1..Len(hs) : hs[i].in = of} IN IF hits = {} THEN <<>> ELSE hs[CHOOSE i \in hits : TRUE].out
+MatchPre(segs, actual, hs) ==
     /\ Len(actual) = SymLen(segs)
     /\ FoldLeft(LAMBDA acc, k :
                   IF ~acc.ok THEN acc
                   ELSE LET sg == segs[k]
                            part == Slice(actual, acc.pos, SegLen(sg)) IN
                        [pos |-> acc.pos + SegLen(sg),
-                        ok |-> IF sg.t = "lit" THEN part = sg.b ELSE SigOblige(sg.of, part)],
+                        ok |-> IF sg.t = "lit" THEN part = sg.b ELSE (HashOut(hs, sg.of) # <<>> /\ HashOut(hs, sg.of) = part)],
                 [pos |-> 1, ok |-> TRUE], Idx(Len(segs))).ok
 
 KeyId(sx, k) == LET hits == {i \in 1..Len(sx.keys) : sx.keys[i].bytes = k} IN
@@ -87,7 +89,7 @@ Verifies(sx, full, key, code, f) ==
        /\ req.ok
        /\ \E i \in 1..Len(sx.sigs) : /\ sx.sigs[i].bytes = full
                                       /\ sx.sigs[i].signer = KeyId(sx, key)
-                                      /\ MatchPre(req.segs, sx.sigs[i].pre)
+                                      /\ MatchPre(req.segs, sx.sigs[i].pre, sx.sigs[i].hs)
 
 \* ---- OP_CHECKSIG: [k |-> "err"] or [k |-> "ok", res |-> BOOLEAN] ------------------------------------------
 CheckSig(sx, toks, csep, full, key, f) ==
